@@ -496,6 +496,9 @@ impl Session {
                 let h = self.t.borrow_mut().vars.remove(&id);
                 drop(h);
             }
+            "set_max_height" => {
+                self.st().set_max_height_allowed(a["h"].as_u64().unwrap() as usize);
+            }
             "expect" => {}
             other => panic!("harness: unknown action {other}"),
         }
@@ -557,6 +560,28 @@ impl Session {
             for (n, w) in want.iter() {
                 if !got.contains_key(n) {
                     out.push(Mismatch { prop: "C06", step, what: format!("node {n} was not re-invoked although an input changed (expected args {w})") });
+                }
+            }
+        }
+        // subscription deliveries of the round (as a set; order among handlers is unspecified)
+        if let Some(want) = e["dlv"].as_array() {
+            let got: Vec<J> = t.log.dlv.iter().map(|(o, tk, k, v, _)| json!({"o": o, "t": tk, "u": k, "v": v})).collect();
+            for g in &got {
+                if !want.contains(g) {
+                    out.push(Mismatch { prop: "C09", step, what: format!("unexpected delivery {g}") });
+                }
+                if got.iter().filter(|x| *x == g).count() > 1 {
+                    out.push(Mismatch { prop: "C09", step, what: format!("delivered twice {g}") });
+                }
+            }
+            for w in want {
+                if !got.contains(w) {
+                    out.push(Mismatch { prop: "C09", step, what: format!("missing delivery {w}") });
+                }
+            }
+            for (o, tk, k, v, rd) in t.log.dlv.iter() {
+                if k != "Invalidated" && rd != &json!(["ok", v]) {
+                    out.push(Mismatch { prop: "C09", step, what: format!("delivery ({o},{tk}) {k} {v} but observer read {rd}") });
                 }
             }
         }
@@ -738,8 +763,21 @@ impl Session {
         };
         let order = ORDER.with(|o| std::mem::take(&mut *o.borrow_mut()));
         snap["order"] = json!(order);
+        let pclass = if panic.is_empty() {
+            ""
+        } else if panic.contains("too large height") {
+            "height"
+        } else if panic.contains("cyclic") {
+            "cyclic"
+        } else if panic.contains("max height already seen") {
+            "max_height_seen"
+        } else if panic.contains("injected user panic") {
+            "user"
+        } else {
+            "other"
+        };
         json!({
-            "panic": panic, "reads": reads, "cells": cells, "inv": inv, "dlv": dlv, "cut": cut,
+            "panic": panic, "pclass": pclass, "reads": reads, "cells": cells, "inv": inv, "dlv": dlv, "cut": cut,
             "inreads": inreads, "rets": t.log.rets.clone(),
             "stable": self.state.as_ref().map_or(true, |s| s.is_stable()),
             "snap": snap,
@@ -753,6 +791,7 @@ pub fn record_script(script: &[J], max_height: Option<usize>, run: usize, out: &
     ORDER.with(|o| o.borrow_mut().clear());
     let mut s = Session::new(max_height);
     out.push(json!({"a": "reset", "maxh": max_height.unwrap_or(128), "run": run}).to_string());
+    let mut panicked = false;
     for a in script {
         if a["a"] == "expect" {
             continue;
@@ -767,8 +806,14 @@ pub fn record_script(script: &[J], max_height: Option<usize>, run: usize, out: &
         line["obs"] = s.observations(&msg);
         out.push(line.to_string());
         if r.is_err() {
+            panicked = true;
             break;
         }
     }
-    let _ = catch_unwind(AssertUnwindSafe(move || drop(s)));
+    let d = catch_unwind(AssertUnwindSafe(move || drop(s)));
+    let msg = match d {
+        Ok(()) => String::new(),
+        Err(p) => panic_msg(p),
+    };
+    out.push(json!({"a": "drop_all", "run": run, "after_panic": panicked, "obs": {"panic": msg}}).to_string());
 }
